@@ -93,6 +93,18 @@ func scenarios(tier string) []scenario {
 		A:      []ops.Op{{K: "Call", S: "delegate", A: 3, B: 2}, M, {K: "T", A: 1, B: 0, T: 1, V: 9}, M, {K: "R", A: 0}, M},
 		B:      []ops.Op{{K: "Call", S: "refund", A: 6}, {K: "M", V: 2}, M, {K: "T", A: 5, B: 6, V: 1}, M, M},
 	})
+	// big momentums: ten blocks of 16000 data bytes each (about 160 KiB of changes in one commit, and in one rollback);
+	// a store that splits large commits into several writes is only exposed by commits of this size
+	var big []ops.Op
+	for a := 0; a < 10; a++ {
+		big = append(big, ops.Op{K: "Tbig", A: a, B: 13, V: 16000})
+	}
+	sc = append(sc, scenario{
+		Name:   "big-momentum-160KiB/reorg-depth-1",
+		Prefix: []ops.Op{M},
+		A:      append(append([]ops.Op{}, big...), M),
+		B:      append(append([]ops.Op{{K: "T", A: 0, B: 1, V: 3}, {K: "M", V: 1}}, big[:8]...), M),
+	})
 	if tier == "thorough" {
 		sc = append(sc, scenario{
 			Name:   "issue+burn+sentinel/reorg-depth-5",
